@@ -98,7 +98,9 @@ def main(tier):
     work = os.path.join(vf.BUILD, "work", "%s_%d" % (PROP, os.getpid()))
     shutil.rmtree(work, ignore_errors=True)
     os.makedirs(work, exist_ok=True)
-    bins = vf.build_many([dict(name="collapse_run_" + n, src="collapse_run.cpp", defines=d) for n, d in BUILDS], par=PAR)
+    # the four builds compile (2 at a time) while TLC checks the first model
+    bex = ThreadPoolExecutor(1)
+    bfut = bex.submit(vf.build_many, [dict(name="collapse_run_" + n, src="collapse_run.cpp", defines=d) for n, d in BUILDS], 2)
 
     # ---- bounded model: theorems + cases
     cases_path = os.path.join(work, "cases.ndjson")
@@ -122,6 +124,9 @@ def main(tier):
             os.remove(r.outfile)
             ev.add_tlc(part, r, {"cases": n, "exhaustive_in_bound": count == 0})
             ncases += n
+
+    bins = bfut.result()
+    bex.shutdown()
 
     # ---- the real code: four builds on the cases, on random graphs and on sparse graphs
     nrand, nbig, nsparse = RANDOM[tier]
